@@ -55,6 +55,12 @@ fn afisafi(a: u16, s: u8) -> String {
     let (a2, s2): (u16, u8) = x.into();
     let nt0: NlriType = (x, false).into();
     let nt1: NlriType = (x, true).into();
+    // (tie coverage) the two conversions of the afisafi! macro nothing else reaches: From<NlriType> for AfiSafiType
+    // (= NlriType::afi_safi) and AfiSafiType::afi (the AFI half, as a number: an unsupported pair keeps its AFI in
+    // Afi::Unimplemented even when the AFI alone is a known one)
+    if AfiSafiType::from(nt0) != nt0.afi_safi() || AfiSafiType::from(nt1) != nt1.afi_safi() || u16::from(x.afi()) != a2 {
+        return format!("From<NlriType>: {} {}; afi(): {} for {}", dbg(&AfiSafiType::from(nt0)), dbg(&AfiSafiType::from(nt1)), u16::from(x.afi()), dbg(&x));
+    }
     format!("{} {} {} {} {} {} {} {}", dbg(&x), a2, s2, hex(&x.as_bytes()),
         dbg(&nt0), dbg(&nt1), dbg(&nt0.afi_safi()), dbg(&nt1.afi_safi()))
 }
